@@ -14,6 +14,7 @@ import (
 	"fmt"
 	"os"
 	"strings"
+	"time"
 
 	"github.com/itchio/wharf/archiver"
 	"github.com/itchio/wharf/zzverif/vsched"
@@ -57,6 +58,12 @@ func schedScenarios(quick bool) []SchedCase {
 
 func schedBody(w *runner.W) {
 	env := NewEnv(w.Scratch(), w.Seed)
+	left := 0
+	for i, sc := range schedScenarios(w.Quick()) {
+		if sc.Bound >= 2 || w.Owns(i) {
+			left++
+		}
+	}
 	var sub *runner.Sub[SchedCase]
 	sub = runner.NewSub(w, "interleavings", func(sc SchedCase, r *runner.Rec) {
 		src, err := env.source(sc.Build)
@@ -164,7 +171,7 @@ func schedBody(w *runner.W) {
 		reported := map[string]bool{}
 		crashes := 0
 		distinctImages := 0
-		st := vsched.Explore(opts, bodyFn, func(out vsched.Result) bool {
+		checkFn := func(out vsched.Result) bool {
 			if out.Kind == "crashed" {
 				crashes++
 			}
@@ -181,7 +188,27 @@ func schedBody(w *runner.W) {
 				sub.Report(cc, fp, "%s; schedule=%v", msg, out.Choices)
 			}
 			return true
-		})
+		}
+		var st vsched.Stats
+		completed := sc.Bound
+		if w.Quick() {
+			st = vsched.Explore(opts, bodyFn, checkFn)
+		} else {
+			// thorough: iterative context bounding inside a time slice
+			left--
+			opts.Deadline = sliceDeadline(w.Deadline(), left+1)
+			var unb bool
+			st, completed, unb = vsched.ExploreIterative(opts, 0, sc.Bound, bodyFn, checkFn)
+			if unb {
+				completed = 99
+			}
+		}
+		if !w.Quick() {
+			sub.MinNote("bound_completed:"+fmt.Sprintf("%dfiles/w%d/crash=%v", len(sc.Build), sc.Workers, sc.Crash), completed)
+			if !st.Complete {
+				sub.Incomplete("some scenarios ended below their target bound, see bound_completed notes")
+			}
+		}
 		if img != nil {
 			img.remove()
 			img = nil
@@ -255,4 +282,15 @@ func sortStrings(a []string) {
 			a[j], a[j-1] = a[j-1], a[j]
 		}
 	}
+}
+
+// sliceDeadline gives one of n remaining scenarios its share of the time left.
+func sliceDeadline(global time.Time, n int) time.Time {
+	if global.IsZero() {
+		return global
+	}
+	if n < 1 {
+		n = 1
+	}
+	return time.Now().Add(time.Until(global) / time.Duration(n))
 }
